@@ -364,7 +364,7 @@ def r4(ctx, rep):
 
 
 def r5(ctx, rep):
-    rep.rule("C03.R5", "LIMIT/OFFSET and take composition are the documented formulas", floor=6)
+    rep.rule("C03.R5", "LIMIT/OFFSET and take composition are the documented formulas", floor=7)
     syn = ctx.syn
     f = syn.fn("gen_query::translate_select_pipeline", crate="prqlc")
     locs = {}
@@ -486,6 +486,12 @@ def r5(ctx, rep):
         mine = [b for b in bad if b[1] in (what, "unreadable")]
         rep.check(not mine, key, f"{msg}; of the {n_cases} cases of present bounds, {len(mine)} differ, e.g. {mine[0][0]}: computed {pretty(mine[0][2])}" if mine else msg,
                   file=g["file"], line=loop["l"], fn=g["path"])
+    # saturating arithmetic is exact only while no intermediate value saturates: `x.saturating_add(y).saturating_sub(1)` clips a result of exactly
+    # i64::MAX (`take 9223372036854775807` became LIMIT ..806); the `- 1` has to be applied to an operand first
+    clipped = [show(n, maxdepth=8) for n in walk(g["body"]) if n.get("k") == "mcall" and n["m"] in ("saturating_sub", "wrapping_sub") and n["a"] and n["a"][0].get("k") == "lit"
+               and any(x.get("k") == "mcall" and x["m"] in ("saturating_add", "wrapping_add") for x in walk(n["r"]))]
+    rep.check(not clipped, "compose:no-clip", f"range_of_ranges computes {clipped}: the sum saturates at i64::MAX before 1 is subtracted, so a bound of i64::MAX comes out one too small "
+              "(`take 9223372036854775807` -> `LIMIT 9223372036854775806`); subtract first", file=g["file"], line=g["l"], fn=g["path"])
     # by role: `Range { start: None, end: Some(0) }` is built under the condition end < start, where (start, end) are the two
     # names bound from (current.start, current.end) in that order - `if let .. zip`, `match` on a pair, or nested ifs
     import guards
